@@ -55,7 +55,11 @@ fn main() {
         usage();
     }
     // panics are expected observations; keep stderr quiet
-    std::panic::set_hook(Box::new(|_| {}));
+    std::panic::set_hook(Box::new(|info| {
+        if std::env::var_os("VERIF_HARNESS_DEBUG").is_some() {
+            eprintln!("{}", info);
+        }
+    }));
 
     let mut inputs: Vec<Value> = vec![];
     let read_jsonl = |path: &str, inputs: &mut Vec<Value>| {
